@@ -2,7 +2,7 @@
 from .. import relcheck
 from .common import generic_replay, COG
 
-FAMS = ["Noh", "Noh2", "Sedov", "Rod1D", "Kenamond1", "Kenamond2", "Kenamond3", "RiemannIG"] + COG
+FAMS = ["Noh", "Noh2", "Sedov", "Rod1D", "RodNH", "Kenamond1", "Kenamond2", "Kenamond3", "RiemannIG"] + COG
 
 
 def run(tier):
